@@ -169,6 +169,13 @@ def check(chk):
             chk.violation("G-HAZ.link", key, where,
                           "invariant of %s relies on validator check `%s`, which no longer exists in the guard table" % (key, link))
             continue
+        ec = row.get("established_by_callers")
+        if ec:
+            bad = callers_establish(ec)
+            if bad:
+                chk.violation("G-HAZ.link", key, where,
+                              "invariant of %s (%s) is established by the callers of %s, but %s" % (key, row["why"][:90], ec["callee"], bad))
+                continue
         ev = row.get("established_by_value")
         if ev:
             bad = value_exclusion(chk, ev)
@@ -183,6 +190,32 @@ def check(chk):
         chk.notes.append("G-HAZ: %d invariant rows no longer match a site (harmless): %s" % (len(stale), stale[:5]))
     chk.floor("G-HAZ sites", n, 150)
     return n
+
+
+def callers_establish(ec):
+    """an assert on a function's parameter that its callers' dispatch establishes: every resolved call site of the callee
+    (same class) is dominated by guards matching each regular expression of `needs`.  Returns a description of the first
+    call site that is not, or None.  No call site at all is analysis-broken."""
+    f = gen.facts()
+    n = 0
+    for fn in gen.sbeppc_functions(f) + [x for x in f["functions"] if "/sbeppc/src/" in x.get("file", "") and x.get("body") is not None and x.get("lambda")
+                                         and x not in gen.sbeppc_functions(f)]:
+        par = None
+        for x in walk(fn["body"]):
+            c = x.get("callee") or {}
+            if x.get("k") not in ("CallExpr", "CXXMemberCallExpr") or c.get("name") != ec["callee"]:
+                continue
+            if ec.get("class") and ec["class"] not in (c.get("cls") or c.get("base") or c.get("qn") or ""):
+                continue
+            n += 1
+            par = par or gen.parents(fn)
+            g = gguard.guard_of(fn, x, par)
+            for need in ec["needs"]:
+                if not any(re.fullmatch(need, t) for t in g):
+                    return "the call at %s:%s is dominated by {%s}, which lacks `%s`" % (rel(fn["file"]), x.get("l"), "; ".join(g), need)
+    if n == 0:
+        raise AnalysisBroken("G-HAZ.link: no call site of %s found (re-confirm the invariant row)" % ec["callee"])
+    return None
 
 
 def value_exclusion(chk, ev):
